@@ -20,7 +20,25 @@ NOT_CLEANER = ("implies(self.wasClean, old(self.wasClean)) and "      # failing 
 
 GHOST_FRAME = ["ghost.close_frames", "ghost.last_close_payload", "ghost.data_frames_after_close", "ghost.frames_sent",
                "ghost.last_frame_opcode", "ghost.last_frame_payload", "ghost.last_frame_fin", "ghost.last_frame_rsv",
-               "ghost.wire", "self.trafficStats.*"]
+               "ghost.wire", "self.trafficStats.*", "ghost.cur_msg", "ghost.in_msg", "ghost.sent_msgs", "ghost.sent_binary",
+               "ghost.cur_binary", "ghost.wellformed"]
+IS_DATA_OP = "(opcode == 0 or opcode == 1 or opcode == 2)"
+# message-level effect of emitting one frame (RFC 6455 5.4: a message is a first frame with opcode 1/2 followed by
+# continuation frames with opcode 0, the last one carrying FIN; control frames may be interleaved)
+SENDFRAME_MSG = [
+    "implies(not %s, ghost.cur_msg == old(ghost.cur_msg) and ghost.in_msg == old(ghost.in_msg) and "
+    "len(ghost.sent_msgs) == old(len(ghost.sent_msgs)) and ghost.wellformed == old(ghost.wellformed) and "
+    "ghost.cur_binary == old(ghost.cur_binary))" % IS_DATA_OP,
+    "implies(%s, ghost.wellformed == (old(ghost.wellformed) and ((opcode == 0) == old(ghost.in_msg))) and "
+    "ghost.in_msg == (not fin))" % IS_DATA_OP,
+    "implies(%s and not fin, ghost.cur_msg == old(ghost.cur_msg) + payload and "
+    "len(ghost.sent_msgs) == old(len(ghost.sent_msgs)) and "
+    "ghost.cur_binary == (old(ghost.cur_binary) if opcode == 0 else (opcode == 2)))" % IS_DATA_OP,
+    "implies(%s and fin, ghost.cur_msg == b'' and len(ghost.sent_msgs) == old(len(ghost.sent_msgs)) + 1 and "
+    "ghost.sent_msgs[len(ghost.sent_msgs) - 1] == old(ghost.cur_msg) + payload and "
+    "ghost.sent_binary[len(ghost.sent_binary) - 1] == (old(ghost.cur_binary) if opcode == 0 else (opcode == 2)) and "
+    "len(ghost.sent_binary) == old(len(ghost.sent_binary)) + 1)" % IS_DATA_OP,
+]
 DROP_MOD = ["self.droppedByMe", "self.state", "self.is_closed.done", "ghost.n_drop", "ghost.drop_abort"]
 CLOSEFRAME_MOD = ["self.state", "self.closedByMe", "self.localCloseCode", "self.localCloseReason",
                   "self.closeHandshakeTimeoutCall", "ghost.timers_armed"] + GHOST_FRAME
@@ -47,7 +65,7 @@ def build(reg):
             "implies(opcode != 8, ghost.last_close_payload == old(ghost.last_close_payload))",
             "ghost.data_frames_after_close == old(ghost.data_frames_after_close) + "
             "(1 if (opcode == 0 or opcode == 1 or opcode == 2) and old(ghost.close_frames) > 0 else 0)",
-        ],
+        ] + SENDFRAME_MSG,
         raises={"Exception": "payload_len is not None or len(payload) > 0x7FFFFFFFFFFFFFFF"}, **common)
 
     # ---------------------------------------------------------------- dropping / failing
@@ -609,3 +627,41 @@ def build_process_data(reg, common, RECV_PRE, DATA_MOD):
             % (COMPLETE, VIOLATION, D),
         ],
         raises={}, **common)
+
+    build_send(reg, common)
+
+
+def build_send(reg, common):
+    SEND_PRE = INV + ["self._perMessageCompress is None", "not ghost.in_msg", "ghost.cur_msg == b''"]
+    UNCHANGED = ("ghost.frames_sent == old(ghost.frames_sent) and len(ghost.sent_msgs) == old(len(ghost.sent_msgs)) and "
+                 "ghost.cur_msg == old(ghost.cur_msg) and ghost.close_frames == old(ghost.close_frames)")
+    OVER = "(0 < self.maxMessagePayloadSize and self.maxMessagePayloadSize < len(payload))"
+    reg.contract(
+        WSP + ".sendMessage", props=["C01", "C05", "C16"],
+        params=dict(S, payload="bytes", isBinary="bool", fragmentSize="opt:int", sync="bool", doNotCompress="bool"),
+        requires=SEND_PRE + ["len(payload) < 2**62"],
+        modifies=GHOST_FRAME + ["self.wasMaxMessagePayloadSizeExceeded"],
+        ensures=INV + [
+            # exactly one message is emitted: same octets, same type, as a well-formed frame sequence
+            "len(ghost.sent_msgs) == old(len(ghost.sent_msgs)) + 1 and "
+            "ghost.sent_msgs[len(ghost.sent_msgs) - 1] == payload and "
+            "ghost.sent_binary[len(ghost.sent_binary) - 1] == isBinary",
+            "ghost.wellformed == old(ghost.wellformed) and not ghost.in_msg and ghost.cur_msg == b''",
+            "old(self.state) == 3 and not %s" % OVER,
+            "ghost.close_frames == old(ghost.close_frames)",
+        ],
+        raises={"Disconnected": "self.state != 3",                         # nothing is written unless OPEN (C05)
+                "PayloadExceededError": "self.state == 3 and %s" % OVER,   # refused locally, nothing written (C16)
+                "Exception": "self.state == 3 and fragmentSize is not None and fragmentSize < 1"},
+        raises_ensures={"Disconnected": [UNCHANGED], "PayloadExceededError": [UNCHANGED]},
+        loops={0: {"invariant": [
+            "n == len(payload) and pfs >= 1 and 0 <= i and (done or i <= n) and implies(done, i >= n)",
+            "first == (i == 0) and ghost.in_msg == ((not first) and not done)",
+            "implies(not done, ghost.cur_msg == payload[0:i] and len(ghost.sent_msgs) == old(len(ghost.sent_msgs)))",
+            "implies(done, ghost.cur_msg == b'' and len(ghost.sent_msgs) == old(len(ghost.sent_msgs)) + 1 and "
+            "ghost.sent_msgs[len(ghost.sent_msgs) - 1] == payload and "
+            "ghost.sent_binary[len(ghost.sent_binary) - 1] == isBinary)",
+            "implies(not first and not done, ghost.cur_binary == isBinary)",
+            "ghost.wellformed == old(ghost.wellformed) and ghost.close_frames == old(ghost.close_frames) and self.state == 3",
+            "opcode == (2 if isBinary else 1) and not sendCompressed",
+        ] + INV, "modifies": GHOST_FRAME}}, asserts="oblige", **common)
